@@ -71,7 +71,7 @@ public:
     bool fetchUnits(const UnitsPtr &importUnits, const std::string &baseFile, History &history);
 
     bool checkForImportCycles(const ImportSourcePtr &importSource, const History &history, const HistoryEpochPtr &h, const std::string &action);
-    bool checkUnitsForCycles(const UnitsPtr &units, History &history);
+    bool checkUnitsForCycles(const UnitsPtr &units, History &history, std::vector<UnitsPtr> &visited);
     bool checkComponentForCycles(const ComponentPtr &component, History &history);
 
     /**
@@ -143,16 +143,23 @@ std::string Importer::ImporterImpl::resolvingUrl(const ImportSourcePtr &importSo
     return modelUrl(model);
 }
 
-bool Importer::ImporterImpl::checkUnitsForCycles(const UnitsPtr &units, History &history)
+bool Importer::ImporterImpl::checkUnitsForCycles(const UnitsPtr &units, History &history, std::vector<UnitsPtr> &visited)
 {
     // Even if these units are not imported, they might have imported children.
     if (!units->isImport()) {
+        // Units that we have already looked at (for instance units that are
+        // defined in terms of themselves) have no further imports to offer.
+        if (std::find(visited.begin(), visited.end(), units) != visited.end()) {
+            return false;
+        }
+        visited.push_back(units);
+
         for (size_t index = 0; index < units->unitCount(); ++index) {
             std::string ref = units->unitAttributeReference(index);
             // If the child units are imported, check them too.
             auto model = owningModel(units);
             if (model->hasUnits(ref)) {
-                if (checkUnitsForCycles(model->units(ref), history)) {
+                if (checkUnitsForCycles(model->units(ref), history, visited)) {
                     return true;
                 }
             }
@@ -191,7 +198,7 @@ bool Importer::ImporterImpl::checkUnitsForCycles(const UnitsPtr &units, History 
         return true;
     }
 
-    return checkUnitsForCycles(importedUnits, history);
+    return checkUnitsForCycles(importedUnits, history, visited);
 }
 
 bool Importer::ImporterImpl::checkComponentForCycles(const ComponentPtr &component, History &history)
@@ -239,7 +246,8 @@ bool Importer::ImporterImpl::hasImportIssues(const ModelPtr &model)
 
     for (const UnitsPtr &units : getImportedUnits(model)) {
         history.clear();
-        if (checkUnitsForCycles(units, history)) {
+        std::vector<UnitsPtr> visited;
+        if (checkUnitsForCycles(units, history, visited)) {
             return true;
         }
     }
